@@ -92,6 +92,16 @@ func applyEdit(kind string, sdls []string, a, b, c int) {
 	case "partialInterfaceSubset":
 		sdls[a] += "interface PartIfS {\n  a: String\n  b: String\n}\n"
 		sdls[b] += "interface PartIfS {\n  a: String\n}\n"
+	case "idFieldType":
+		// a field called id is nothing special on a type that does not implement Node
+		sdls[a] += "type Money {\n  id: Int!\n  amount: Int\n}\n"
+		sdls[b] += "type Money {\n  id: String!\n  amount: Int\n}\n"
+	case "idInputFieldType":
+		sdls[a] += "input MoneyFilter {\n  id: Int\n}\n"
+		sdls[b] += "input MoneyFilter {\n  id: [ID!]\n}\n"
+	case "idFieldArgs":
+		sdls[a] += "type Wallet {\n  id(format: String): ID!\n  n: Int\n}\n"
+		sdls[b] += "type Wallet {\n  id: ID!\n  n: Int\n}\n"
 	case "fieldType":
 		sdls[a] += "type Sig {\n  a: String\n}\n"
 		sdls[b] += "type Sig {\n  a: Int\n}\n"
@@ -142,6 +152,11 @@ func applyEdit(kind string, sdls []string, a, b, c int) {
 	case "neutralDisjoint":
 		sdls[a] += "type Disj {\n  a: String\n}\n"
 		sdls[b] += "type Disj {\n  b: String\n}\n"
+	case "neutralStubInterface":
+		// one service only refers to a Node type (id-only declaration) and puts a marker interface on it
+		sdls[a] = ensureNode(sdls[a]) + "interface Tagged {\n  id: ID!\n}\ntype Stub implements Node & Tagged {\n  id: ID!\n}\n"
+		sdls[a] = addRootField(sdls[a], "Query", "taggedThings: [Tagged]")
+		sdls[b] = ensureNode(sdls[b]) + "type Stub implements Node {\n  id: ID!\n  label: String\n  size: Int\n}\n"
 	case "neutralEnumExtend":
 		sdls[a] += "enum Ext {\n  A\n  B\n}\n"
 		sdls[b] += "enum Ext {\n  B\n  C\n}\n"
@@ -149,9 +164,9 @@ func applyEdit(kind string, sdls []string, a, b, c int) {
 }
 
 var conflictKinds = []string{"dupQueryField", "dupMutationField", "dupSubscriptionField", "kindObjectEnum", "kindScalarObject", "kindInputObject",
-	"kindInterfaceUnion", "nodeOneSide", "nodeFieldTwice", "nodeFieldTwicePartial", "partialObject", "partialObjectSubset", "partialInput", "partialInputSubset", "partialInterface", "partialInterfaceSubset",
+	"kindInterfaceUnion", "nodeOneSide", "nodeFieldTwice", "nodeFieldTwicePartial", "partialObject", "partialObjectSubset", "partialInput", "partialInputSubset", "partialInterface", "partialInterfaceSubset", "idFieldType", "idInputFieldType", "idFieldArgs",
 	"fieldType", "fieldNullability", "fieldListWrapper", "fieldListElemNullability", "argListWrapper", "inputFieldListWrapper", "fieldArgs", "fieldArgType", "inputFieldType", "inputFieldDefault", "argDefault", "unionMembers", "unionMembersDisjoint"}
-var neutralKinds = []string{"neutralThreeWay", "neutralIdentical", "neutralDisjoint", "neutralEnumExtend"}
+var neutralKinds = []string{"neutralThreeWay", "neutralIdentical", "neutralDisjoint", "neutralEnumExtend", "neutralStubInterface"}
 
 // conflictGate maps a conflict kind to the feature class used by known-finding gates.
 func conflictGate(kind string) string { return "merge." + kind }
